@@ -22,6 +22,11 @@ RunsOfT(b, T)  == SelectSeq(b.runs, LAMBDA r : r.fid = T.fid /\ r.tag = T.tag)
 AccOfT(b, T)   == SelectSeq(b.msgs, LAMBDA m : Accepts(T, m))
 MsgN(b, n)     == LET S == { i \in 1..Len(b.msgs) : b.msgs[i].d.n = n } IN b.msgs[CHOOSE i \in S : TRUE]
 
+\* event.fire('out', n=, fid=, tag=, v=<the message's v or '-'>, <xp>='X'): exactly these parameters must arrive, also
+\* when the extra parameter is named like an option of some other call (context, blocking, ...)
+VOf(d) == IF "v" \in DOMAIN d THEN d.v ELSE "-"
+TrigOf(c, fid, tag) == c.trigs[CHOOSE t \in 1..Len(c.trigs) : c.trigs[t].fid = fid /\ c.trigs[t].tag = tag]
+Xp(T) == [k \in (IF T.xp = "-" THEN {} ELSE {T.xp}) |-> "X"]
 \* first failing clause for one burst ("" = none)
 BurstWhy(c, b) ==
   IF \E j \in 1..Len(b.runs) : ~\E t \in 1..Len(c.trigs) : c.trigs[t].fid = b.runs[j].fid /\ c.trigs[t].tag = b.runs[j].tag
@@ -49,7 +54,8 @@ BurstWhy(c, b) ==
             (b.emits[i].n = b.emits[j].n /\ b.emits[i].fid = b.emits[j].fid /\ b.emits[i].tag = b.emits[j].tag) # (b.emits[i].cid = b.emits[j].cid)
     THEN "run-context-not-one-per-run"
   ELSE IF \E k \in 1..Len(b.emits) : b.emits[k].via = "event" /\
-            b.emits[k].data # [n |-> b.emits[k].n, fid |-> b.emits[k].fid, tag |-> b.emits[k].tag, v |-> MsgN(b, b.emits[k].n).d.v]
+            b.emits[k].data # Merged([n |-> b.emits[k].n, fid |-> b.emits[k].fid, tag |-> b.emits[k].tag, v |-> VOf(MsgN(b, b.emits[k].n).d)],
+                                     Xp(TrigOf(c, b.emits[k].fid, b.emits[k].tag)))
     THEN "event-fire-parameters-differ"
   ELSE ""
 
